@@ -142,6 +142,7 @@ def build(c):
         k = gen.random_kex(rng, names, {'db': 4, 'gss': 3}, (2, 8))
     elif prof == 'unknown':
         k = gen.random_kex(rng, names, {'db': 5, 'unknown': 2}, (2, 8))
+        k['kex'] = list(k['kex']) + ['gss-group14-sha1', 'gss-gex-sha1@example.com']   # look-alikes of failing GSS families (a bare stem, a stem with a domain): unknown to the database, so nothing is recommended about them
     elif prof == 'weak':
         k = audit.sym_kex(['diffie-hellman-group1-sha1', 'diffie-hellman-group14-sha1', 'diffie-hellman-group-exchange-sha1'], ['ssh-dss', 'ssh-rsa'], ['3des-cbc', 'arcfour', 'aes128-cbc'], ['hmac-md5', 'hmac-sha1-96'])
     elif prof == 'terrapin':
